@@ -15,13 +15,13 @@ Definition ev_codes (e : tev) : list Z :=
   | TCallTask _ => [709; 103; 603]
   | TCallEvent _ => [709; 104; 801]
   | TCallRaw _ => [709; 105]
-  | TWait _ _ _ _ _ _ => [204; 707; 711; 201; 704; 705]
+  | TWait _ _ _ _ _ _ => [204; 707; 711; 201; 704]
   | TRet None _ _ => [1502]
-  | TRet (Some _) _ _ => [202; 203; 602; 708; 902; 403; 404; 407]
+  | TRet (Some _) _ _ => [202; 203; 705; 602; 708; 902; 403; 404; 407]
   | TEnd _ _ => [204; 707; 711; 701; 702; 703]
   | TTear _ => [706]
   | TDone _ => [1802]
-  | THang => [405; 604; 710; 901]
+  | THang => [705; 405; 604; 710; 901]
   | TFatal => [1804]
   | TCrash => [1801]
   | _ => []
@@ -45,7 +45,7 @@ Proof. intros m x l I. apply (Sub_chk m false x l I). Qed.
 Lemma Sub_chk_t : forall m0 m b x l, In x l -> Sub m0 m l -> Sub (chk m0 b x) m l.
 Proof. intros. eapply Sub_trans; [apply Sub_chk; assumption|assumption]. Qed.
 
-Ltac inl := cbn [In ev_codes]; tauto.
+Ltac inl := cbn [In ev_codes]; repeat first [left; reflexivity | right].
 Ltac strip := match goal with
   | |- Sub (m_iter ?X _ _ _ _) _ _ => apply (Sub_trans _ X); [apply Sub_eq; reflexivity|]
   | |- Sub (m_tms ?X _ _) _ _ => apply (Sub_trans _ X); [apply Sub_eq; reflexivity|]
@@ -89,16 +89,21 @@ Proof.
   - (* TRet *) destruct n as [n|].
     + change (SubL (ev_codes (TRet (Some n) fds clk)) m (mon_step m (TRet (Some n) fds clk))).
       lazy beta iota delta [mon_step]. repeat lift_let. unfold SubL.
-      assert (S0 : Sub m0 m (ev_codes (TRet (Some n) fds clk))) by (apply Sub_chk; inl).
-      assert (S1 : Sub m1 m (ev_codes (TRet (Some n) fds clk))) by (apply Sub_chk_t; [inl|exact S0]).
-      assert (S2 : Sub m2 m (ev_codes (TRet (Some n) fds clk))) by (apply Sub_chk_t; [inl|exact S1]).
-      assert (S3 : Sub m3 m (ev_codes (TRet (Some n) fds clk))) by (apply Sub_chk_t; [inl|exact S2]).
-      assert (S4 : Sub m4 m (ev_codes (TRet (Some n) fds clk))) by (apply Sub_chk_t; [inl|exact S3]).
-      assert (S5 : Sub m5 m (ev_codes (TRet (Some n) fds clk))).
-      { unfold m5. destruct (slept && negb (a_stale m4)); [|exact S4].
-        destruct (min_expiry m4); [|exact S4]. cbv zeta. repeat sct. exact S4. }
-      assert (S6 : Sub m6 m (ev_codes (TRet (Some n) fds clk))) by (apply Sub_chk_t; [inl|exact S5]).
-      unfold m9, m8, m7. repeat strip. exact S6.
+      set (l := ev_codes (TRet (Some n) fds clk)).
+      assert (S00 : Sub m m l) by apply Sub_refl.
+      repeat match goal with
+      | x := chk ?y _ _ : mon, H : Sub ?z m l |- _ =>
+          constr_eq y z;
+          assert (Sub x m l) by (unfold x; apply Sub_chk_t; [unfold l; inl|exact H]); clearbody x
+      | x := (if _ then _ else ?y) : mon, H : Sub ?z m l |- _ =>
+          constr_eq y z;
+          assert (Sub x m l) by (unfold x;
+                                 match goal with |- Sub (if ?c then _ else _) _ _ => destruct c end; [|exact H];
+                                 match goal with |- Sub (match ?c with _ => _ end) _ _ => destruct c end; [|exact H]; cbv zeta;
+                                 apply Sub_chk_t; [unfold l; inl|]; apply Sub_chk_t; [unfold l; inl|]; exact H);
+          clearbody x
+      end.
+      repeat first [strip | match goal with |- Sub ?x _ _ => unfold x end]. assumption.
     + unfold mon_step. cbv zeta. repeat strip.
       apply Sub_chk_t; [inl|]. apply Sub_eq. reflexivity.
   - (* TAct *) apply Sub_eq. apply fails_action.
@@ -156,11 +161,21 @@ Proof.
   - unfold mon_step. cbv zeta. cbn [posted_ever m_wait]. rewrite !pe_chk. rewrite pe_close. exact H.
   - destruct n as [n|].
     + lazy beta iota delta [mon_step]. repeat lift_let.
-      assert (P4 : posted_ever m4 = true) by (unfold m4, m3, m2, m1, m0; rewrite !pe_chk; exact H).
-      assert (P5 : posted_ever m5 = true).
-      { unfold m5. destruct (slept && negb (a_stale m4)); [|exact P4]. destruct (min_expiry m4); [|exact P4].
-        cbv zeta. rewrite !pe_chk. exact P4. }
-      unfold m9, m8, m7, m6. cbn [posted_ever m_iter m_spin m_loop m_wait]. rewrite pe_chk. exact P5.
+      repeat match goal with
+      | x := chk ?y _ _ : mon, H0 : posted_ever ?z = true |- _ =>
+          constr_eq y z;
+          assert (posted_ever x = true) by (unfold x; rewrite pe_chk; exact H0); clearbody x
+      | x := (if _ then _ else ?y) : mon, H0 : posted_ever ?z = true |- _ =>
+          constr_eq y z;
+          assert (posted_ever x = true) by (unfold x;
+                                 match goal with |- posted_ever (if ?c then _ else _) = _ => destruct c end; [|exact H0];
+                                 match goal with |- posted_ever (match ?c with _ => _ end) = _ => destruct c end; [|exact H0];
+                                 cbv zeta; rewrite !pe_chk; exact H0);
+          clearbody x
+      end.
+      cbn [posted_ever m_iter].
+      repeat match goal with |- posted_ever ?x = true => unfold x; cbn [posted_ever m_iter m_spin m_loop m_wait] end.
+      assumption.
     + unfold mon_step. cbv zeta. cbn [posted_ever m_iter m_loop]. rewrite pe_chk. exact H.
   - apply pe_action. exact H.
   - unfold mon_step. repeat dm; exact H.
@@ -175,3 +190,18 @@ Proof.
   intros P s s' (l & E & _) H. rewrite (mst_ext s s' l E). revert H. generalize (mst s).
   induction (rev l) as [|e r IH]; intros m H; cbn [fold_left]; [exact H|]. apply IH. apply pe_step. exact H.
 Qed.
+
+(* ---------- a recorded code comes from an event that can add it ---------- *)
+Lemma fails_origin : forall tr c, In c (mon_fails tr) -> exists e, In e tr /\ In c (ev_codes e).
+Proof.
+  intros tr c. unfold mon_fails, mon_run.
+  assert (G : forall l m, In c (fails (fold_left mon_step l m)) -> In c (fails m) \/ exists e, In e l /\ In c (ev_codes e)).
+  { induction l as [|e l IH]; intros m H; cbn [fold_left] in H; [left; exact H|].
+    destruct (IH _ H) as [H1|(e' & I & C)].
+    - destruct (fails_step m e c H1) as [H2|H2]; [left; exact H2|right; exists e; split; [left; reflexivity|exact H2]].
+    - right. exists e'. split; [right; exact I|exact C]. }
+  intros H. destruct (G tr mon0 H) as [[]|E]. exact E.
+Qed.
+
+Lemma no_event_no_code : forall tr c, (forall e, In e tr -> ~ In c (ev_codes e)) -> ~ In c (mon_fails tr).
+Proof. intros tr c H F. destruct (fails_origin tr c F) as (e & I & C). exact (H e I C). Qed.
